@@ -82,7 +82,7 @@ def gen_cases(ctx):
     if ctx.quick:
         ctx.exhaustive = False
         allt = list(itertools.product(REL, repeat=3))
-        triples += rng.sample(allt, 20)
+        triples += rng.sample(allt, 14)
     else:
         triples = list(itertools.product(REL, repeat=3))
     for rs in triples:
